@@ -160,11 +160,12 @@ theorem ldr2_readResult_get (p : Parsed) (info : TagInfo) (t : LTag) (rs : Resul
   simp only [herr, hinfo, hget, htr, if_true, hdw, hbit]
 
 theorem ldr2_sendRequest_multi (w w2 : Cli.World Ext) (rs : Results) (seq : Nat) (reqs : List ReadReq) (raw : Option Bytes)
-    (h : sendUnit hookAll w seq (Cl.multiMsg (reqs.map fun q => Cl.readMsg q.path q.elements)) = (w2, .ok raw)) :
+    (h : sendUnit hookAll w seq (Cl.multiMsg (reqs.map fun q => Cl.readMsg q.path q.elements)) = (w2, .ok raw))
+    (hcs : (tagResp raw).p.commandStatus = some 0) :
     sendRequest hookAll w rs (.multiRead seq reqs) =
       (w2, multiReadResults rs (reqs.zip (embeddedReplies (tagResp raw).p.data))) := by
   unfold sendRequest
-  simp only [h]
+  simp only [h, multiPacketError, hcs, if_true]
 
 /-! ### the two reads composed -/
 
@@ -294,7 +295,7 @@ theorem ldr2_read_two (cfg : Cfg) (w : Cli.World Ext) (sess : Nat) (cidb : Bytes
         (fun q => Cl.readMsg q.path q.elements) = [Cl.readMsg pa 1, Cl.readMsg pb 1] := rfl
     rw [← hmap] at hsend
     rw [ldr2_sendRequest_multi ({ w with drv := w.drv.nextSeq.2.nextSeq.2.nextSeq.2 } : Cli.World Ext) w2 []
-      w.drv.nextSeq.2.nextSeq.2.nextSeq.1 _ _ hsend]
+      w.drv.nextSeq.2.nextSeq.2.nextSeq.1 _ _ hsend (ldr_tagResp_commandStatus _ _ _ _)]
     dsimp only
     rw [hdata, hemb]
     have hmr : multiReadResults []
